@@ -21,6 +21,7 @@ THEOREMS = [
     'OpenHTF.Validators.c07_pivot',
     'OpenHTF.Validators.c07_consistent_end',
     'OpenHTF.Validators.c07_equals_str',
+    'OpenHTF.Validators.c07_all_equals_str',
 ]
 RULE = ('limit tuples from a pool of ints, floats (incl. 0.1, 1e308, +-inf), bools, numeric strings with type=, None; '
         'probes = each reported bound, its float neighbours (nextafter), +-0.0, +-inf, NaN, None, 10**400, a string; '
@@ -192,6 +193,11 @@ def run_real(case):
     if case.get('copy'):
       val = copy.deepcopy(val)
     return {'real': [_call(lambda: val(pv))], 'v': str(pv)}
+  if k == 'AES':
+    val = validators.all_equals(case['lit'])
+    if case.get('copy'):
+      val = copy.deepcopy(val)
+    return {'real': [_call(lambda: val(list(case['vs'])))]}
   if k == 'PV':
     sub = validators.InRange(0, 10)
     rows = [((i,), (5 if b else 50)) for i, b in enumerate(case['bits'])]
@@ -225,6 +231,8 @@ def encode(case, obs):
         _vtok(obs['max'], sc), _vtok(obs['tol'], sc), _vtok(obs['v'], sc), real)
   if k in ('EQS', 'RX'):
     return 'C07 %s %s %s # %s' % (k, _hx(case['lit']), _hx(obs['v']), real)
+  if k == 'AES':
+    return 'C07 AES %s %d %s # %s' % (_hx(case['lit']), len(case['vs']), ' '.join(_hx(v) for v in case['vs']), real)
   if k == 'PV':
     return 'C07 PV %d %s # %s' % (len(case['bits']), ' '.join('1' if b else '0' for b in case['bits']), real)
   raise ValueError(k)
@@ -316,6 +324,10 @@ def gen_cases(rng, tier):
               '\n' + lit]:
       cases.append({'kind': 'EQS', 'lit': lit, 'v': v, 'copy': len(v) % 2 == 0})
       cases.append({'kind': 'RX', 'lit': lit, 'v': v, 'copy': len(v) % 2 == 1})
+  # all_equals(<str>): a list of values each of which must be the literal
+  for lit in ['abc', 'a.c', '', 'x+y', '5']:
+    for vs in ([], [lit], [lit, lit], [lit, lit + 'x'], ['x' + lit, lit], [lit, lit, lit], [lit.upper()], [lit + '\n'], ['abc'], ['']):
+      cases.append({'kind': 'AES', 'lit': lit, 'vs': vs, 'copy': len(vs) % 2 == 0})
   cases.append({'kind': 'EQS', 'lit': '5', 'v': 5})
   cases.append({'kind': 'EQS', 'lit': '5', 'v': 5.0})
   # --- pivots
